@@ -83,6 +83,14 @@ def run_shard(params, rec):
             rec.count("unsupported_by_backend")
             continue
         av = EXCEPT_ACCESS_VIOL
+        if out.raised == "RuntimeError":
+            import re as _re
+            m_ = _re.match(r"^A simplification is missing: ([A-Za-z_][A-Za-z_0-9]*)$", getattr(out, "raised_msg", "") or "")
+            if m_ and not hasattr(out.jitter.cpu, m_.group(1)):
+                # the Python back end met a register its CPU object does not model (x86 CR7/DR6...): the
+                # instruction is unsupported by that back end, like a C compiler rejection on the other
+                rec.count("unsupported_by_backend")
+                continue
         if out.raised is not None:
             rec.fail("%s: exception escapes run instead of a reported fault (%s)" % (backend, out.raised),
                      "%s %s: %s" % (spec.mname, backend, getattr(out, "raised_msg", "")),
@@ -192,6 +200,11 @@ def run_shard(params, rec):
             continue
         if "CalledProcessError" in (nofault.raised, res.raised):
             rec.count("unsupported_by_backend")
+            continue
+        if nofault.budget or out.budget:
+            # a looping program whose counter an instruction overwrites: both runs end on the step budget
+            # (the resumed one shares the step counter of the faulting run), wherever that happens to be
+            rec.count("discarded_budget")
             continue
         d2 = jitlib.diff_outcomes(nofault, res, spec)
         rec.count("resumes_compared")
